@@ -348,13 +348,16 @@ pub fn parse_and_bind<R: FsModuleResolver>(
                     original_file: file_name.clone(),
                 }),
             );
-            symbol_exports.insert_value(
-                renamed.to_string(),
-                Rc::new(SymbolExport::TsEnumDecl {
-                    decl: enum_.clone(),
-                    original_file: file_name.clone(),
-                }),
-            );
+            // (`export { E as default }` has one default export, not two)
+            if renamed != "default" {
+                symbol_exports.insert_value(
+                    renamed.to_string(),
+                    Rc::new(SymbolExport::TsEnumDecl {
+                        decl: enum_.clone(),
+                        original_file: file_name.clone(),
+                    }),
+                );
+            }
             found = true;
         } else if let Some(intf) = locals.content.interfaces.get(&k) {
             symbol_exports.insert_type(
@@ -368,6 +371,9 @@ pub fn parse_and_bind<R: FsModuleResolver>(
             found = true;
         }
 
+        if found && renamed == "default" {
+            continue;
+        }
         if let Some(v) = locals.content.exprs.get(&k) {
             symbol_exports.insert_value(
                 renamed.to_string(),
